@@ -71,6 +71,12 @@ def rule_scenarios(ctx, rid='RS', only=None, title=None):
     for q, gen in mine:
         res = outcomes(ctx.P, q, gen)
         if res is None:
+            name = q.rsplit('.', 1)[-1]
+            if name.startswith('_') and not name.startswith('__') and not any(f.name == name for f in ctx.P.functions.values()):
+                # a private helper that was merged into its caller: what it did is part of the caller's scenarios now
+                for label in sorted(table.get(q, {})):
+                    ctx.holds(rid, '%s [%s]: private helper no longer exists anywhere (merged into its callers)' % (name, label))
+                continue
             ctx.undecide(rid, 'function %s of the scenario tables no longer exists' % q)
             continue
         fi = ctx.P.functions[q]
